@@ -100,7 +100,7 @@ theorem C05_idle_holds_nothing (s : RCU.St) (t : Tid) (h : s.pc t = .idle ∨ s.
     retiring thread synchronizes, clears the buffer (object 1, tag 0 ≤ epoch 0) and frees object 2 itself. -/
 example : ∃ s os, RCU.model.run (RCU.init true 1 5 1)
     ([(0, .invoke ⟨"retire", [0, 1]⟩), (0, .step), (0, .step), (0, .step), (0, .ret),
-      (0, .invoke ⟨"retire", [0, 2]⟩)] ++ List.replicate 15 (0, .step) ++ [(0, .ret)]) = some (s, os)
+      (0, .invoke ⟨"retire", [0, 2]⟩)] ++ List.replicate 14 (0, .step) ++ [(0, .ret)]) = some (s, os)
     ∧ s.disposed 1 = 1 ∧ s.disposed 2 = 1 ∧ s.buf = [] ∧ s.pc 0 = .idle := by
   refine ⟨_, _, rfl, ?_, ?_, ?_, ?_⟩ <;> decide
 
@@ -108,7 +108,7 @@ example : ∃ s os, RCU.model.run (RCU.init true 1 5 1)
 example : ∃ s os, RCU.model.run (RCU.init true 1 5 1)
     [(0, .invoke ⟨"retire", [0, 1]⟩), (0, .step), (0, .step), (0, .step), (0, .ret),
      (0, .invoke ⟨"retire", [0, 2]⟩), (0, .step), (0, .step)] = some (s, os)
-    ∧ s.pc 0 = .acq [2] ∧ s.buf = [(1, 0)] ∧ s.disposed 2 = 0 := by
+    ∧ s.pc 0 = .syncLd [2] ∧ s.buf = [(1, 0)] ∧ s.disposed 2 = 0 := by
   refine ⟨_, _, rfl, ?_, ?_, ?_⟩ <;> decide
 
 /-- Destruct frees what is still buffered. -/
@@ -118,11 +118,18 @@ example : ∃ s os, RCU.model.run (RCU.init true 1 5 1)
     ∧ s.disposed 3 = 1 ∧ s.destroyed = true ∧ s.pc 0 = .idle := by
   refine ⟨_, _, rfl, ?_, ?_, ?_⟩ <;> decide
 
+/-- Instant flavour: the object is freed by retire_ptr itself; Destruct has nothing to do and returns at once. -/
+example : ∃ s os, RCU.model.run (RCU.init false 1 1 1)
+    ([(0, .invoke ⟨"retire", [0, 3]⟩)] ++ List.replicate 7 (0, .step) ++
+     [(0, .ret), (0, .invoke ⟨"destruct", [0]⟩), (0, .ret)]) = some (s, os)
+    ∧ s.disposed 3 = 1 ∧ s.destroyed = true ∧ s.pc 0 = .idle := by
+  refine ⟨_, _, rfl, ?_, ?_, ?_⟩ <;> decide
+
 /-- The epoch tag at work: thread 1 retires object 2 after thread 0's fetch_add (tag 1 > epoch 0 returned to
     thread 0).  Thread 0's clear_buffer(0) frees object 1 but pushes object 2 back. -/
 example : ∃ s os, RCU.model.run (RCU.init true 2 1 4)
-    ([(0, .invoke ⟨"retire", [0, 1]⟩)] ++ List.replicate 5 (0, .step) ++
-     [(1, .invoke ⟨"retire", [1, 2]⟩)] ++ List.replicate 4 (1, .step) ++ List.replicate 15 (0, .step)) = some (s, os)
+    ([(0, .invoke ⟨"retire", [0, 1]⟩)] ++ List.replicate 6 (0, .step) ++
+     [(1, .invoke ⟨"retire", [1, 2]⟩)] ++ List.replicate 5 (1, .step) ++ List.replicate 11 (0, .step)) = some (s, os)
     ∧ s.disposed 1 = 1 ∧ s.disposed 2 = 0 ∧ s.buf = [(2, 1)] ∧ s.pc 0 = .sizeLd [] := by
   refine ⟨_, _, rfl, ?_, ?_, ?_, ?_⟩ <;> decide
 
